@@ -25,6 +25,10 @@ pub struct Session {
     pub nkeys: i64,
     /// last compaction choice reported by the worker hook
     pub last_choice: Arc<Mutex<Option<Vec<u64>>>>,
+    /// compaction filter state (rules + what the filter was shown), if a filter is installed
+    pub filter: Option<Arc<crate::filter::Shared>>,
+    /// controlled clock (seconds), 0 = real time
+    pub clock: u64,
 }
 
 fn panic_msg(e: &Box<dyn std::any::Any + Send>) -> String {
@@ -44,11 +48,23 @@ impl Session {
         phys: Phys,
         blob: Option<BlobCfg>,
         nkeys: i64,
+        rules: Vec<crate::filter::Rule>,
     ) -> Result<Self, String> {
         let _ = std::fs::remove_dir_all(&dir);
         let seq = SequenceNumberCounter::default();
         let vis = SequenceNumberCounter::default();
         let shared = Shared::new(&phys);
+        let filter = if rules.is_empty() {
+            None
+        } else {
+            Some(Arc::new(crate::filter::Shared {
+                rules,
+                conc: conc.clone(),
+                nkeys,
+                shown: Mutex::new(vec![]),
+                finished: Mutex::new(0),
+            }))
+        };
         let mut s = Self {
             dir,
             tree: None,
@@ -61,13 +77,15 @@ impl Session {
             snaps: vec![],
             nkeys,
             last_choice: crate::LAST_CHOICE.clone(),
+            filter,
+            clock: 0,
         };
         s.open()?;
         Ok(s)
     }
 
     pub fn open(&mut self) -> Result<(), String> {
-        let cfg = make_config(
+        let mut cfg = make_config(
             &self.dir,
             &self.seq,
             &self.vis,
@@ -75,6 +93,11 @@ impl Session {
             self.blob.as_ref(),
             &self.shared,
         );
+        if let Some(f) = &self.filter {
+            cfg = cfg.with_compaction_filter_factory(Some(Arc::new(crate::filter::RuleFactory(
+                f.clone(),
+            ))));
+        }
         match catch_unwind(AssertUnwindSafe(|| cfg.open())) {
             Ok(Ok(t)) => {
                 self.tree = Some(t);
@@ -266,6 +289,41 @@ impl Session {
                     };
                     r.map_err(|e| format!("err:{e:?}"))
                 }
+                "clock" => {
+                    let t = op["t"].as_u64().ok_or("skip:arg t")?;
+                    lsm_tree::verif::set_clock(Some(std::time::Duration::from_secs(t)));
+                    self.clock = t;
+                    Ok(())
+                }
+                "fifo" => {
+                    let w = op["w"].as_u64().ok_or("skip:arg w")?;
+                    // the limit is given as a class relative to the measured size
+                    let v = self.t().current_version();
+                    let total: u64 = v
+                        .level(0)
+                        .map(|l| l.iter().flat_map(|r| r.iter()).map(|t| t.metadata.file_size).sum())
+                        .unwrap_or(0);
+                    let blob_bytes: u64 = lsm_tree::verif::blob_file_facts(self.index())
+                        .iter()
+                        .map(|f| f.3)
+                        .sum();
+                    let size = total + blob_bytes;
+                    let limit = match op["limit"].as_str() {
+                        Some("ge_total") => size,
+                        Some("total_minus_1") => size.saturating_sub(1),
+                        Some("half") => size / 2,
+                        Some("one") => 1,
+                        _ => op["limit"].as_u64().unwrap_or(u64::MAX),
+                    };
+                    let ttl = op["ttl"].as_u64();
+                    info["limit"] = json!(limit);
+                    info["size"] = json!(size);
+                    info["now"] = json!(self.clock);
+                    let strat = lsm_tree::compaction::Fifo::new(limit, ttl);
+                    self.t()
+                        .compact(Arc::new(strat), Self::seqno_arg(w))
+                        .map_err(|e| format!("err:{e:?}"))
+                }
                 "major" => {
                     let w = op["w"].as_u64().ok_or("skip:arg w")?;
                     let target = if op["split"].as_str() == Some("all") {
@@ -421,6 +479,10 @@ impl Session {
         }));
         if let Some(c) = self.last_choice.lock().expect("lock").clone() {
             info["choice"] = json!(c);
+        }
+        if let Some(f) = &self.filter {
+            let shown: Vec<(i64, i64)> = std::mem::take(&mut *f.shown.lock().expect("lock"));
+            info["shown"] = json!(shown.iter().map(|(k, v)| json!([k, v])).collect::<Vec<_>>());
         }
         let ret = match r {
             Ok(Ok(())) => "ok".to_string(),
@@ -608,6 +670,8 @@ impl Session {
                 "tomb": t.metadata.tombstone_count,
                 "wtomb": t.metadata.weak_tombstone_count,
                 "size": t.metadata.file_size,
+                "created": (u128::from(t.metadata.created_at) / 1_000_000_000) as u64 % 1_000_000_000,
+                "bbytes": t.referenced_blob_bytes().unwrap_or(0),
             }
         })
     }
